@@ -51,8 +51,12 @@ def verify_functions(qualnames, repo=None, second_backend=False, th=None, reg=No
     vpoints = [p for info in report.values() for p in info.get('vac_points', [])]
     vres = solve.vacuity(th, vpoints)
     vac_bad = {}
+    by_label = {}
     for label, ok, verdict, dt in vres:
-        if not ok:
+        by_label.setdefault(label, []).append(ok)
+    for label, oks in by_label.items():
+        # a program point reached on several paths is vacuous only if EVERY path to it is contradictory
+        if not any(oks):
             vac_bad.setdefault(label.split(': ')[0], []).append(label)
     for q, info in report.items():
         info['vacuity_checked'] = len(info.get('vac_points', []))
